@@ -49,7 +49,7 @@ var c14Cols = []struct {
 	{"opaque RGBA", color.RGBA{0x12, 0x34, 0x56, 0xff}},
 	{"translucent NRGBA", color.NRGBA{0xff, 0x80, 0x00, 0x80}},
 	{"Gray", color.Gray{0x77}},
-	{"RGBA64", color.RGBA64{0x1234, 0x2345, 0x3456, 0x8000}},
+	{"RGBA64", color.RGBA64{0x80ff, 0x2345, 0x3456, 0x8000}}, // valid at 8 bits; the red low byte exceeds alpha's only at 16 bits
 	{"custom r>a", weird{0xffff, 0, 0, 0x8000}},
 	{"invalid premultiplied RGBA (one channel exceeds alpha by 1)", color.RGBA{0x81, 0x00, 0x00, 0x80}},
 	{"gradient-looking RGBA", color.RGBA{0x02, 0x4a, 0x8a, 0x00}},
@@ -143,6 +143,9 @@ var c14Graphics = func() [][]byte {
 	}
 	return out
 }()
+
+// c14Bad: a suggested palette (two entries), one valid instruction, then a reserved opcode
+var c14Bad = []byte{0x89, 0x49, 0x56, 0x47, 0x02, 0x08, 0x02, 0x01, 0x7c, 0x18, 0x00, 0xc8}
 
 type c14Case struct {
 	Opts    []int  `json:"options"`
@@ -256,6 +259,15 @@ func c14Check(w *mc.W, cs *c14Case) {
 				nt = true
 			}
 			pal[i] = ref.OpaqueBlack
+		}
+	}
+	// every other case: a decode that failed after its metadata came just before (its
+	// suggested palette and its options are its own business)
+	if (len(cs.Opts)+cs.Graphic)%2 == 1 {
+		var scrap rec.Dest
+		if err := decode.Decode(&scrap, c14Bad, decode.WithPalette(c14P2), decode.WithColorAt(1, color.RGBA{0xff, 0, 0xff, 0xff})); err == nil {
+			w.HarnessError("the broken graphic decodes")
+			return
 		}
 	}
 	// sink 1: recorder
